@@ -381,8 +381,10 @@ def classify_pipeline(an, P):
                 unspecified.append("singleton_registered_at_several_levels")
             if n_m:
                 rejects.append("mut_ref_to_singleton")
-            if c.get("fallible"):
-                unspecified.append("fallible_singleton")
+            if c.get("fallible") and op.get("eh"):
+                # "You can't register an error handler for a singleton constructor": pavexc's own rule, not among the
+                # documented ones the class predicate is written from -> outside the class, not judged
+                unspecified.append("fallible_singleton_with_attached_error_handler")
             # by-value consumers at request time need Copy or clone-if-necessary; a move into another
             # singleton's constructor happens once, while the application state is built
             def at_build_time(cid):
@@ -415,7 +417,9 @@ def classify_pipeline(an, P):
     # observers cannot depend (transitively) on fallible constructors
     for o in P.route.observers:
         for cid in D.transitive_ctor_ids(o["c"]):
-            if cat(cid).get("fallible"):
+            # a fallible SINGLETON is built (or fails) while the application state is built: at request time it is a
+            # plain input, so an observer may depend on it
+            if cat(cid).get("fallible") and D.lifecycle_of(cat(cid)["out"]) != "singleton":
                 rejects.append("observer_depends_on_fallible_constructor")
     # error handlers that need the value whose construction failed: outside the class
     for cid, eh in D.eh_of.items():
